@@ -12,6 +12,7 @@ The tie to the compiled code is the counting global allocator of the harness (0 
 -/
 import RubatoProofs.Lemmas.Shape
 import RubatoProofs.Props.C10
+import RubatoProofs.Fft.Storage
 
 namespace Rubato.C09
 open Rubato Rubato.Gen
@@ -51,5 +52,28 @@ theorem buffer_shape_invariant (kind : AKind) (ratio maxRel : ρ) (deg : Degree)
 theorem process_keeps_storage (s : AState ρ σ) (a : CallArgs σ) :
     bufShape (s.process a).1.buf = bufShape s.buf ∧ (s.process a).1.mask.length = (s.process a).1.mask.length :=
   ⟨(process_frame s a).shape, rfl⟩
+
+end Rubato.C09
+
+namespace Rubato.C09
+open Rubato Rubato.FftProofs
+
+/-- [law-free] the synchronous (FFT) resamplers: from an accepted constructor call, after ANY history of operations
+(processing calls with arbitrary arguments and outcomes, resets, setters) every internal buffer has the length the
+constructor gave it (`chunk + fft_size` per channel for FftFixedIn / FftFixedOut, no per-channel buffer for FftFixedInOut)
+and there is one overlap state per channel — for every arithmetic and every per-block unit -/
+theorem fft_storage_never_changes {σ υ : Type} {da : DivArith} {u : FftUnit σ υ} {zero : σ} {kind : FKind}
+    {rateIn rateOut chunk sub nch : Nat} {s0 : FState σ υ}
+    (h : FState.init da u zero kind rateIn rateOut chunk sub nch = .ok s0) (ops : List (FftProofs.Op σ)) :
+    (runOps da u s0 ops).store.map List.length = initLens da kind rateIn rateOut chunk sub nch ∧
+      (runOps da u s0 ops).ov.length = nch :=
+  history_storage h ops
+
+/-- one processing call in particular (whatever its outcome) keeps every buffer length -/
+theorem fft_process_keeps_storage {σ υ : Type} (da : DivArith) (u : FftUnit σ υ) (s : FState σ υ)
+    (input : List (List σ)) (outLens : List Nat) (um : Option (List Bool)) (h : StoreWF s) :
+    ((s.process da u input outLens um).1.store.map List.length = s.store.map List.length) ∧
+    (s.process da u input outLens um).1.ov.length = s.nch :=
+  process_storage_wf da u s input outLens um h
 
 end Rubato.C09
